@@ -47,6 +47,13 @@ func corpusTargets() []repeatCase {
 			out = append(out, repeatCase{Dir: filepath.Join(verifDir(), "sim"), Target: "./corpus/" + e.Name()})
 		}
 	}
+	od := filepath.Join(verifDir(), "sim", "oldmod")
+	ents, _ = os.ReadDir(od)
+	for _, e := range ents {
+		if e.IsDir() {
+			out = append(out, repeatCase{Dir: od, Target: "./" + e.Name()})
+		}
+	}
 	sort.Slice(out, func(i, j int) bool { return out[i].Target < out[j].Target })
 	return out
 }
